@@ -112,13 +112,13 @@ class FileNameGrouper(AbstractReadGrouper):
 
 
 def get_file_grouping_properties(values):
+    # file:FILE:READ_COL:GROUP_COL:DELIM - every field after FILE is optional on its own (0, 1 and tab when it is not set);
+    # DELIM is everything after the fourth colon, so it may be or contain a colon
     assert len(values) >= 2
-    if len(values) > 4:
-        return values[1], int(values[2]), int(values[3]), values[4]
-    elif len(values) > 3:
-        return values[1], int(values[2]), int(values[3]), "\t"
-    else:
-        return values[1], 0, 1, "\t"
+    read_id_column_index = int(values[2]) if len(values) > 2 and values[2] else 0
+    group_id_column_index = int(values[3]) if len(values) > 3 and values[3] else 1
+    delim = ":".join(values[4:]) or "\t"
+    return values[1], read_id_column_index, group_id_column_index, delim
 
 
 def prepare_read_groups(args, sample):
